@@ -43,11 +43,24 @@ def run(ctx):
         ('zero_tolerance', [[[0, 0, 0], rot_dir(20)]], [N], 1.0, 1.5, 0.0, 'unit'),
         ('negative_tolerance', [[[0, 0, 0], rot_dir(20)]], [N], 1.0, 1.5, -0.01, 'unit'),
     ]
-    for _ in range(ctx.n(6, 60)):
+    # surface normals "of any length and either sign" (refract divides by |n|^2 itself): the total-internal-reflection decision and the
+    # termination of the loop must not depend on the length of the normal
+    for tag, nz in (('short_normal', 0.5), ('shorter_normal', 0.25), ('long_normal', 2.0), ('longer_normal', 3.0), ('flipped_normal', -1.0),
+                    ('flipped_short_normal', -0.5)):
+        Ns = [[0, 0, 0], [0, 0, nz]]
+        refr_cases.append(('tir_60_' + tag, [[[0, 0, 0], rot_dir(60)]], [Ns], 1.5, 1.0, 0.01, 'flag'))
+        refr_cases.append(('tir_45_' + tag, [[[0, 0, 0], rot_dir(45)]], [Ns], 1.5, 1.0, 0.01, 'flag'))
+        refr_cases.append(('below_critical_30_' + tag, [[[0, 0, 0], rot_dir(30)]], [Ns], 1.5, 1.0, 0.01, 'unit'))
+        refr_cases.append(('air_to_glass_50_' + tag, [[[0, 0, 0], rot_dir(50)]], [Ns], 1.0, 1.5, 0.01, 'unit'))
+    for _ in range(ctx.n(8, 80)):
         th = rng.uniform(0, 89.9)
         n1, n2 = rng.choice([(1.5, 1.0), (1.0, 1.5), (2.4, 1.0), (1.33, 1.0)])
         exp = 'flag' if n1 / n2 * math.sin(math.radians(th)) > 1.0005 else ('unit' if n1 / n2 * math.sin(math.radians(th)) < 0.9995 else 'flag_or_unit')
-        refr_cases.append(('random_%0.3f_%s' % (th, n1), [[[0, 0, 0], rot_dir(th)]], [N], n1, n2, 0.01, exp))
+        nlen = rng.choice([1.0, 1.0, rng.choice([-1.0, 1.0]) * 10 ** rng.uniform(-0.7, 0.7)])
+        az = rng.uniform(0, 2 * math.pi)
+        d0 = rot_dir(th)
+        d = [d0[0] * math.cos(az), d0[0] * math.sin(az), d0[2]]
+        refr_cases.append(('random_%0.3f_%s_%0.3g' % (th, n1, nlen), [[[0, 0, 0], d]], [[[0, 0, 0], [0, 0, nlen]]], n1, n2, 0.01, exp))
 
     lines = []
     for (name, rays, normals, n1, n2, err, exp) in refr_cases:
@@ -73,7 +86,8 @@ def run(ctx):
             o = outs[i, 1]
             e = exp if exp != 'mixed' else ('flag' if i == 0 else 'unit')
             flagged = not np.all(np.isfinite(o))
-            unit = (not flagged) and abs(np.dot(o, o) - 1) <= max(err, 0) ** 2 * 1.01 + 1e-6
+            nl2 = float(np.dot(normals[i][1], normals[i][1]))
+            unit = (not flagged) and abs(np.dot(o, o) - 1) <= max(nl2, 1.0) * max(err, 0) ** 2 * 1.01 + 1e-6
             if e == 'flag' and not flagged:
                 ctx.violation('refract returns the finite direction %s where no transmitted ray exists (%s)' % (o.tolist(), name), rec,
                               {'fn': 'refract', 'what': 'unflagged', 'case': name})
